@@ -81,6 +81,7 @@ type VC struct {
 	rng       map[string][2]*big.Int
 	tagTypes  map[string]types.Type
 	inBinder  int
+	paramInvs map[string]string
 	lenTerms  []string
 }
 
@@ -297,6 +298,16 @@ func (vc *VC) heap(st *State, name, sort string) string {
 		if name == "$alloc" {
 			vc.assert(le("1", n))
 		}
+		// heap closedness: every reference stored in the entry heap is below the entry allocation pointer
+		if isRefHeap(name) {
+			a0 := vc.heap(&State{heaps: map[string]string{}}, "$alloc", "Int")
+			switch {
+			case strings.HasPrefix(name, "E|") && sort == "(Array Int (Array Int Int))":
+				vc.emit(fmt.Sprintf("(assert (forall ((qa Int) (qi Int)) (! (< (select (select %s qa) qi) %s) :pattern ((select (select %s qa) qi)))))", n, a0, n))
+			case (strings.HasPrefix(name, "H|") || strings.HasPrefix(name, "C|")) && sort == "(Array Int Int)":
+				vc.emit(fmt.Sprintf("(assert (forall ((qa Int)) (! (< (select %s qa) %s) :pattern ((select %s qa)))))", n, a0, n))
+			}
+		}
 	}
 	return n
 }
@@ -323,9 +334,18 @@ func leafHeapName(p Ptr, leafPath string) string {
 
 func (vc *VC) loadLeaf(st *State, p Ptr, l Leaf) string {
 	name := leafHeapName(p, l.Path)
+	if l.Typ != nil && isRefType(l.Typ) && l.Sort == "Int" {
+		refHeapNames[name] = true
+	}
 	h := vc.heap(st, name, vc.heapSortFor(name, l.Sort))
 	if p.isElem() {
 		return sel2(h, p.Base, p.Idx)
+	}
+	if strings.HasPrefix(p.Root, "C|") && p.Path == "" && !vc.freshRefs[p.Base] {
+		// a pointer to a non-struct value may point into a slice (eptr) or to a cell
+		en := "E|" + strings.TrimPrefix(p.Root, "C|") + "|" + l.Path
+		eh := vc.heap(st, en, vc.heapSortFor(en, l.Sort))
+		return ite(lt(p.Base, "0"), sel2(eh, app("eptr_arr", p.Base), app("eptr_idx", p.Base)), sel(h, p.Base))
 	}
 	return sel(h, p.Base)
 }
@@ -363,6 +383,16 @@ func (vc *VC) load(st *State, p Ptr, t types.Type) Val {
 	return v
 }
 
+// isRefHeap: heaps whose leaves hold references (slice backing arrays, pointers, maps).
+func isRefHeap(name string) bool {
+	if strings.HasSuffix(name, "#arr") {
+		return true
+	}
+	return refHeapNames[name]
+}
+
+var refHeapNames = map[string]bool{}
+
 func isRefType(t types.Type) bool {
 	switch under(t).(type) {
 	case *types.Pointer, *types.Map, *types.Chan, *types.Array:
@@ -383,6 +413,17 @@ func (vc *VC) store(st *State, p Ptr, t types.Type, v Val) {
 		var nh string
 		if p.isElem() {
 			nh = sto(h, p.Base, sto(sel(h, p.Base), p.Idx, ts[i]))
+		} else if strings.HasPrefix(p.Root, "C|") && p.Path == "" && !vc.freshRefs[p.Base] {
+			en := "E|" + strings.TrimPrefix(p.Root, "C|") + "|" + l.Path
+			es := vc.heapSortFor(en, l.Sort)
+			eh := vc.heap(st, en, es)
+			isE := lt(p.Base, "0")
+			ea, ei := app("eptr_arr", p.Base), app("eptr_idx", p.Base)
+			vc.setHeap(st, en, es, ite(isE, sto(eh, ea, sto(sel(eh, ea), ei, ts[i])), eh))
+			if vc.logStores {
+				vc.storeLog = append(vc.storeLog, storeRec{heap: en, base: ea})
+			}
+			nh = ite(isE, h, sto(h, p.Base, ts[i]))
 		} else {
 			nh = sto(h, p.Base, ts[i])
 		}
@@ -764,6 +805,16 @@ func (vc *VC) valEq(a, b TV) string {
 			return eq(v.T, "0")
 		}
 		panic(contractError("comparison with nil of unsupported value"))
+	}
+	if as, ok := a.V.(*SliceV); ok {
+		if bs, ok := b.V.(*SliceV); ok {
+			if bs.Arr == "0" {
+				return eq(as.Arr, "0")
+			}
+			if as.Arr == "0" {
+				return eq(bs.Arr, "0")
+			}
+		}
 	}
 	switch av := a.V.(type) {
 	case Scalar:
